@@ -246,3 +246,41 @@ Definition heap_a64_case (i r : sexp) : verdict :=
   | _ => VBad "input shape"
   end.
 Definition run_heap_a64 : string -> string := run_cases heap_a64_case.
+
+(* ---------- C14: assembler-level well-formedness of the implementation's output ---------- *)
+From SCC Require Import Sem.A64Wf Sem.LabelGuard.
+Open Scope string_scope.
+Definition guard_tag (p : sexp) : string :=
+  match g_prog p with
+  | Some pp => (if labels_guard pp then " guard" else if name_digits pp then " name-digits" else " noguard")
+               ++ (if calls_guard pp then "" else " open-calls")
+  | None => ""
+  end.
+Definition wf_a64_case (i r : sexp) : verdict :=
+  match i, r with
+  | L [Q _; p; lc; _], L [cs; _] =>
+      match g_acodes cs with
+      | Some cs =>
+          match asm_wf cs with
+          | Some why =>
+              match first_dup (defined_labels cs), g_prog p with
+              | Some l, Some pp => if name_digits pp then VViol ("class=label-collision-name-digits " ++ why)
+                                   else VViol ("class=asm-ill-formed-a64 " ++ why)
+              | _, _ => VViol ("class=asm-ill-formed-a64 " ++ why)
+              end
+          | None =>
+              let nlab := List.length (defined_labels cs) in
+              let tag (b : bool) (s : string) := if b then " " ++ s else "" in
+              VOk ("nt labels" ++ n_to_string (N.log2 (N.of_nat nlab + 1))
+                   ++ tag (has (fun c => match c with ADR _ _ => true | _ => false end) cs) "table"
+                   ++ tag (has (fun c => match c with MOVK _ _ _ => true | _ => false end) cs) "movk"
+                   ++ tag (has (fun c => match c with STR _ SP _ | LDR _ SP _ => true | _ => false end) cs) "spills"
+                   ++ tag (has (fun c => match c with BL _ => true | _ => false end) cs) "print"
+                   ++ guard_tag p)
+          end
+      | None => VBad "rust output unreadable"
+      end
+  | _, L [A "PANIC"; _] => VSkip "implementation panicked (capacity)"
+  | _, _ => VBad "case shape"
+  end.
+Definition run_wf_a64 : string -> string := run_cases wf_a64_case.
